@@ -44,10 +44,14 @@ type Config struct {
 	Update   int   `json:"update"`    // -1: no update; otherwise number of route-specific middleware after Update
 	// RouteRedirect: trailing-slash redirection is enabled on route A only (router-wide flag off)
 	RouteRedirect bool `json:"route_redirect,omitempty"`
+	// APat selects route A's pattern: 0 "/a", 1 "/f/*{p}/m" (infix catch-all with a suffix), 2 "/a/{p}"
+	APat int `json:"a_pattern,omitempty"`
 }
 
+var aPatterns = []struct{ pat, req string }{{"/a", "/a"}, {"/f/*{p}/m", "/f/x/y/m"}, {"/a/{p}", "/a/v"}}
+
 func (c Config) String() string {
-	return fmt.Sprintf("globals(masks)=%v default=%v@%d routeA-mws=%d update=%d redirect-per-route=%v", c.Globals, c.Default, c.DefPos, c.RouteMws, c.Update, c.RouteRedirect)
+	return fmt.Sprintf("routeA=%s globals(masks)=%v default=%v@%d routeA-mws=%d update=%d redirect-per-route=%v", aPatterns[c.APat].pat, c.Globals, c.Default, c.DefPos, c.RouteMws, c.Update, c.RouteRedirect)
 }
 
 func expected(cfg Config, kind int, routeIDs []string, h string) string {
@@ -110,7 +114,8 @@ func evalConfig(cfg Config) (class, msg string) {
 	if cfg.RouteRedirect {
 		aOpts = append(aOpts, fox.WithRedirectTrailingSlash(true))
 	}
-	rtA, err := f.Handle("GET", "/a", handler("HA"), aOpts...)
+	patA, reqA := aPatterns[cfg.APat].pat, aPatterns[cfg.APat].req
+	rtA, err := f.Handle("GET", patA, handler("HA"), aOpts...)
 	if err != nil {
 		return "error", err.Error()
 	}
@@ -125,7 +130,7 @@ func evalConfig(cfg Config) (class, msg string) {
 		if cfg.RouteRedirect {
 			uOpts = append(uOpts, fox.WithRedirectTrailingSlash(true))
 		}
-		rtA, err = f.Update("GET", "/a", handler("HA2"), uOpts...)
+		rtA, err = f.Update("GET", patA, handler("HA2"), uOpts...)
 		if err != nil {
 			return "error", err.Error()
 		}
@@ -146,14 +151,21 @@ func evalConfig(cfg Config) (class, msg string) {
 		got  string
 		want string
 	}{
-		{"ServeHTTP GET /a (route handler)", run(serve("GET", "/a")), expected(cfg, 0, aIDs, hA)},
+		{"ServeHTTP GET " + reqA + " (route handler)", run(serve("GET", reqA)), expected(cfg, 0, aIDs, hA)},
 		{"ServeHTTP GET /b (route handler, other route)", run(serve("GET", "/b")), expected(cfg, 0, bIDs, "HB")},
 		{"ServeHTTP GET /none (no-route handler)", run(serve("GET", "/none")), expected(cfg, 1, nil, "NR")},
-		{"ServeHTTP POST /a (no-method handler)", run(serve("POST", "/a")), expected(cfg, 2, nil, "NM")},
-		{"ServeHTTP GET /a/ (redirect handler)", run(serve("GET", "/a/")), strings.TrimSpace(strings.Replace(expected(cfg, 3, nil, "@"), "@", "", 1))},
-		{"ServeHTTP OPTIONS /a (options handler)", run(serve("OPTIONS", "/a")), expected(cfg, 4, nil, "OP")},
+		{"ServeHTTP POST " + reqA + " (no-method handler)", run(serve("POST", reqA)), expected(cfg, 2, nil, "NM")},
+		{"ServeHTTP GET " + reqA + "/ (redirect handler)", run(serve("GET", reqA+"/")), strings.TrimSpace(strings.Replace(expected(cfg, 3, nil, "@"), "@", "", 1))},
+		{"ServeHTTP OPTIONS " + reqA + " (options handler)", run(serve("OPTIONS", reqA)), expected(cfg, 4, nil, "OP")},
 		{"Route.Handle (bare handler)", run(func() { rtA.Handle(fox.NewTestContextOnly(fx.NewRW(), fx.Req("GET", "", "/a"))) }), hA},
 		{"Route.HandleMiddleware (route-specific chain only)", run(func() { rtA.HandleMiddleware(fox.NewTestContextOnly(fx.NewRW(), fx.Req("GET", "", "/a"))) }), expected(Config{}, 0, aIDs, hA)},
+		{"Lookup + Route.HandleMiddleware (the route a request resolves to)", run(func() {
+			rt, cc, _ := f.Lookup(fx.WrapRW(fx.NewRW()), fx.Req("GET", "", reqA))
+			if rt != nil {
+				rt.HandleMiddleware(cc)
+				cc.Close()
+			}
+		}), expected(Config{}, 0, aIDs, hA)},
 		{"Route.HandleMiddleware of the other route", run(func() { rtB.HandleMiddleware(fox.NewTestContextOnly(fx.NewRW(), fx.Req("GET", "", "/b"))) }), expected(Config{}, 0, bIDs, "HB")},
 	}
 	_ = cfgGlobalsAll
@@ -205,6 +217,16 @@ func configs(quick bool) []Config {
 						out = append(out, Config{Globals: l, Default: dp >= 0, DefPos: max(dp, 0), RouteMws: rm, Update: up, RouteRedirect: true})
 					}
 				}
+			}
+		}
+	}
+	// route A on other pattern shapes (cached sub-nodes of infix catch-alls, parameters)
+	base := len(out)
+	for ap := 1; ap < len(aPatterns); ap++ {
+		for _, c := range out[:base] {
+			if len(c.Globals) <= 1 && !c.Default {
+				c.APat = ap
+				out = append(out, c)
 			}
 		}
 	}
